@@ -1,10 +1,13 @@
 //! Kani harnesses for the misalcedo/ppp verification (run from a scratch copy; see driver/kani_runner.py).
 //!   * `std_*`  : cross-checks of the contracts that contracts/prelude.rs ASSUMES about std
 //!                (complete when loop-free over the full domain, otherwise bounded as stated);
-//!   * `fmt_*`  : bounded stand-ins for the `Display` impls (core::fmt is outside Verus' reach).
+//!   * `fmt_*`  : bounded stand-ins for the `Display` impls (core::fmt is outside Verus' reach);
+//!   * `v2_*`   : second back end on the real crate as compiled by rustc (bounded by input length).
 #![allow(unused)]
 
 #[cfg(kani)]
 mod std_checks;
 #[cfg(kani)]
 mod fmt_checks;
+#[cfg(kani)]
+mod v2_checks;
